@@ -57,18 +57,23 @@ def repo_hash():
 # harness builds
 
 class Variant:
-    def __init__(self, cxx="g++", std="c++17", opt="-O2", abacus=False, san=False):
+    def __init__(self, cxx="g++", std="c++17", opt="-O2", abacus=False, san=False, extra=(), label=""):
         self.cxx, self.std, self.opt, self.abacus, self.san = cxx, std, opt, abacus, san
+        self.extra, self.label = tuple(extra), label
+        self.probed_backend = None
     @property
     def name(self):
-        return "%s_%s_%s%s%s" % (self.cxx.replace("+", "p"), self.std.replace("+", "p"), self.opt.strip("-"),
-                                 "_abacus" if self.abacus else "", "_san" if self.san else "")
+        return "%s_%s_%s%s%s%s" % (self.cxx.replace("+", "p"), self.std.replace("+", "p"), self.opt.strip("-"),
+                                 "_abacus" if self.abacus else "", "_san" if self.san else "", ("_" + self.label) if self.label else "")
     @property
     def backend(self):
-        """which sqrt algorithm `sqrt()` uses at run time in this build"""
+        """which sqrt algorithm `sqrt()` uses at run time in this build: probed on the built harness (build_harness),
+        because it is decided by the toolchain as much as by the flags - clang++-14 -std=c++2b with libstdc++ 12
+        answers std::is_constant_evaluated() with true at run time and therefore runs the abacus algorithm"""
+        if self.probed_backend: return self.probed_backend
         return "ab" if (self.abacus and self.std == "c++17") else "std"
     def flags(self):
-        f = ["-std=" + self.std, self.opt, "-w", "-I", INC]
+        f = ["-std=" + self.std, self.opt, "-w", "-I", INC] + list(self.extra)
         if self.abacus: f.append("-DFIXEDMATH_ENABLE_SQRT_ABACUS_ALGO")
         if self.san:
             f += ["-g", "-fsanitize=undefined,address,float-cast-overflow", "-fno-sanitize-recover=all", "-D_GLIBCXX_ASSERTIONS",
@@ -78,6 +83,8 @@ class Variant:
 V_DEFAULT = Variant()
 V_ABACUS = Variant(abacus=True)
 V_CLANG20 = Variant(cxx="clang++-14", std="c++20")
+# a release-like configuration: newest standard, highest level, assertions off, plain char unsigned
+V_REL = Variant(cxx="clang++-14", std="c++2b", opt="-O3", extra=("-DNDEBUG", "-funsigned-char"), label="rel")
 V_SAN = Variant(opt="-O1", san=True)
 V_SAN_ABACUS = Variant(opt="-O1", san=True, abacus=True)
 
@@ -106,7 +113,9 @@ def build_harness(v):
     info_p = exe + ".json"
     with locked("build_" + v.name):
         if os.path.exists(exe) and os.path.exists(info_p):
-            return exe, json.load(open(info_p))
+            info = json.load(open(info_p))
+            v.probed_backend = info.get("backend")
+            return exe, info
         srcs = [os.path.join(HARNESS, "harness.cc"), os.path.join(HARNESS, "harness_detail.cc"), os.path.join(SRC, "fixed_math.cc")]
         info = {"variant": v.name, "detail": True}
         cmd = [v.cxx] + v.flags() + srcs + ["-o", exe + ".tmp"]
@@ -121,6 +130,14 @@ def build_harness(v):
             info["detail_error"] = r.stderr[-1500:]
         info["build_s"] = round(time.time() - t0, 2)
         os.replace(exe + ".tmp", exe)
+        # which square-root algorithm does sqrt() select at run time in this build?
+        try:
+            pr = subprocess.run([exe], input="sqrt_backend\n", capture_output=True, text=True, timeout=60)
+            if pr.stdout.strip() == "ok 1": info["backend"] = "ab"
+            elif pr.stdout.strip() == "ok 0": info["backend"] = "std"
+        except (subprocess.SubprocessError, OSError):
+            pass
+        v.probed_backend = info.get("backend")
         json.dump(info, open(info_p, "w"))
         return exe, info
 
